@@ -149,7 +149,10 @@ def run_side(side, ops):
                 elif kind == 'children':
                     res = len(p.children(recursive=bool(op[2])))
                 elif kind == 'waitpid':
-                    pid, sts = side.waitpid(p.pid, os.WNOHANG)
+                    flags = os.WNOHANG
+                    if len(op) > 2 and op[2]:
+                        flags |= os.WUNTRACED
+                    pid, sts = side.waitpid(p.pid, flags)
                     res = (side.idx(pid) if pid else 0, sts)
                 elif kind == 'waitany':
                     got = []
@@ -189,7 +192,7 @@ def strategy():
         st.tuples(st.just('status'), idx),
         st.tuples(st.just('is_running'), idx),
         st.tuples(st.just('children'), idx, st.integers(0, 1)),
-        st.tuples(st.just('waitpid'), idx),
+        st.tuples(st.just('waitpid'), idx, st.integers(0, 1)),
         st.tuples(st.just('waitany'), idx))
     return st.lists(op, min_size=2, max_size=8).map(
         lambda ops: [('spawn', 'obey')] + [list(o) for o in ops]
